@@ -218,6 +218,21 @@ fn operator_pairs_in_contexts(ctx: &mut Ctx) {
         holes.push(format!("x {o1} ! y"));
         holes.push(format!("x . k {o1} y . 0"));
     }
+    // operator triples at the top level, the last (or first) operand being an access path / call / parenthesised term
+    ctx.align();
+    for o1 in ops {
+        for o2 in ops {
+            for o3 in ops {
+                if !ctx.mine() {
+                    continue;
+                }
+                for (a, d) in [("x", "w"), ("x", "w . k"), ("x . 0", "w"), ("x", "w . 3"), ("g ( x )", "( w )")] {
+                    let text = format!("{a} {o1} y {o2} z {o3} {d}");
+                    judge_text(ctx, &text, "operator-triple", 7);
+                }
+            }
+        }
+    }
     ctx.align();
     for (ci, c) in contexts.iter().enumerate() {
         for h in &holes {
@@ -446,6 +461,7 @@ fn finish(m: &Merged, tier: Tier) -> Finish {
     }
     f.floors.push(floor(format!("parent/child precedence-level pairs met on each side: {pairs} (missing: {})", missing.join(" ")), missing.is_empty()));
     f.floors.push(floor(format!("accepted {accepted} / rejected {rejected} enumerated sequences (floor: 1000 accepted, and some accepted at every length)"), accepted >= 1000 && (1..=4).all(|l| m.c(&format!("accepted:len{l}")) > 0)));
+    f.floors.push(floor(format!("operator triples with plain / access / call operands at the ends: {}", m.c("family:operator-triple")), m.c("family:operator-triple") >= 30_000));
     f.floors.push(floor(format!("operator pairs in syntactic positions: {} texts over {} positions", m.c("family:operator-pair-in-position"), m.prefix_count("position:")), m.c("family:operator-pair-in-position") >= 15_000 && m.prefix_count("position:") >= 40));
     f.floors.push(floor(format!("harness self-check failures: {}", m.c("selfcheck:printer-and-reference-parser-disagree")), m.c("selfcheck:printer-and-reference-parser-disagree") == 0));
     // the one ambiguity of the table (a unary operator directly in a contains/in operand position) may be
